@@ -164,3 +164,6 @@ Definition doCall : list string :=
 Definition auth_ServeHTTP : list string :=
   ["if token == """""; "if token != """""; "if token != """""; "if !strings.HasPrefix(token, ""Bearer "")";
    "call w.WriteHeader"; "return"; "if err != nil"; "call w.WriteHeader"; "return"; "call h.Next"].
+
+Definition resetReadDeadline : list string :=
+  ["if c.timeout > 0"; "if err := c.conn.SetReadDeadline(time.Now().Add(c.timeout)); err != nil"].
